@@ -361,3 +361,54 @@ func ropeSplit(w *Worker, parts []ropePart, sep string) ([]value, bool) {
 	out = append(out, normRope(w, cur))
 	return out, true
 }
+
+
+// sliceSymStr implements s[lo:hi] on a symbolic string: bounds are checked the way Go does
+// (a feasible out-of-range slice is a run-time panic on that path), the result is a fresh
+// string atom constrained to the substring.
+func (w *Worker) sliceSymStr(s *symStr, lo, hi value) value {
+	ln := strLen(w, s).(*symInt)
+	var loI, hiI *symInt
+	if lo == nil {
+		loI = &symInt{t: mkInt64(0), lo: big.NewInt(0), hi: big.NewInt(0), w: w}
+	} else if v, ok := asSymInt(lo); ok {
+		loI = v
+	} else {
+		panic(unmodelled{"slice bound of unsupported type on a symbolic string"})
+	}
+	if hi == nil {
+		hiI = ln
+	} else if v, ok := asSymInt(hi); ok {
+		hiI = v
+	} else {
+		panic(unmodelled{"slice bound of unsupported type on a symbolic string"})
+	}
+	inRange := tAnd(tAnd(tCmp("<=", mkInt64(0), loI.t), tCmp("<=", loI.t, hiI.t)), tCmp("<=", hiI.t, ln.t))
+	if !w.branch(inRange, "string slice bounds") {
+		panic(targetPanic{iface{w.i.runtimeErrorString, "slice bounds out of range"}})
+	}
+	w.lowSeq++
+	t := w.declare(fmt.Sprintf("sub!%d", w.lowSeq), sStr)
+	w.inputs = w.inputs[:len(w.inputs)-1] // internal, not a harness input
+	w.assertPC(tEq(t, mk("str.substr", sStr, s.term(), loI.t, tSub(hiI.t, loI.t))))
+	maxLen := 0
+	if ln.hi != nil && ln.hi.IsInt64() {
+		maxLen = int(ln.hi.Int64())
+	}
+	forbid := ""
+	// bytes no part of the source can contain cannot occur in the substring either
+	for c := 32; c < 127; c++ {
+		if atomsForbid(s.parts, byte(c)) {
+			lit := false
+			for _, p := range s.parts {
+				if p.kind == rkLit && strings.IndexByte(p.lit, byte(c)) >= 0 {
+					lit = true
+				}
+			}
+			if !lit {
+				forbid += string(rune(c))
+			}
+		}
+	}
+	return &symStr{parts: []ropePart{{kind: rkAtom, t: t, forbid: forbid, maxLen: maxLen, minLen: 0}}, w: w}
+}
